@@ -92,6 +92,10 @@ VHstoredatam(HFILEID f, const char *field, const uint8 *buf, int32 n, int32 data
     int32 vs;
     int32 ret_value = SUCCEED;
 
+    /* (a negative count must not be mistaken for VSwrite's FAIL below) */
+    if (n < 0)
+        HGOTO_ERROR(DFE_ARGS, FAIL);
+
     if ((vs = VSattach(f, -1, "w")) == FAIL)
         HGOTO_ERROR(DFE_CANTATTACH, FAIL);
 
